@@ -16,6 +16,7 @@ import (
 	"os"
 	"runtime"
 	"sort"
+	"strings"
 	"time"
 
 	"go4.org/jsonconfig"
@@ -290,6 +291,39 @@ func runScn(s *Scn, u *univ.Universe, lg *gate.Log, idx int) error {
 		}
 		lg.Emit(gate.Event{"ev": "ret", "res": res, "size": int(rr.sr.Size)})
 	}
+	// stepOrRet releases the next upload of replica layer id. Lower calls other than uploads that the code makes on
+	// the way (a stat, say) are let through unscheduled. If the public call returns although the upload never
+	// started, it says so (stepped = false) instead of waiting for a call that will not come.
+	var retAt time.Time
+	stepOrRet := func(id string) (bool, error) {
+		deadline := time.Now().Add(stepWatch)
+		for time.Now().Before(deadline) {
+			for _, p := range sched.Parked() {
+				if !strings.HasSuffix(p, ".ReceiveBlob") {
+					if err := sched.Step(p, stepWatch); err != nil {
+						return false, err
+					}
+				}
+			}
+			if err := sched.WaitParked(id, 2*time.Millisecond); err == nil {
+				return true, sched.Step(id, stepWatch)
+			}
+			if !returned {
+				select {
+				case rr := <-retCh:
+					logRet(rr)
+					retAt = time.Now()
+				default:
+				}
+			} else if retAt.IsZero() {
+				retAt = time.Now()
+			}
+			if returned && time.Since(retAt) > 300*time.Millisecond {
+				return false, nil
+			}
+		}
+		return false, fmt.Errorf("%s never arrived and the call did not return (parked: %v)", id, sched.Parked())
+	}
 	var pendingOrder []int
 	for k, i := range s.Order {
 		if returned && bsMode {
@@ -297,8 +331,14 @@ func runScn(s *Scn, u *univ.Universe, lg *gate.Log, idx int) error {
 			break
 		}
 		layer := fmt.Sprintf("s%d", i)
-		if err := sched.Step(layer+".ReceiveBlob", stepWatch); err != nil {
+		stepped, err := stepOrRet(layer + ".ReceiveBlob")
+		if err != nil {
 			return fmt.Errorf("conformance: %v", err)
+		}
+		if !stepped {
+			// the call returned and this replica's upload was never started: nothing more to schedule; the trace
+			// (a return without the uploads the model needs for it) is judged by the specification
+			break
 		}
 		if !bsMode {
 			ev := "done"
